@@ -115,7 +115,13 @@ func newResult(t reflect.Type, opts resultOptions) (result, error) {
 				return nil, newErrInvalidInput(fmt.Sprintf(
 					"flatten can be applied to slices only: %v is not a slice", t), nil)
 			}
-			rg.Type = rg.Type.Elem()
+			if len(rg.As) > 0 || rg.Type != t {
+				// The group would hold the As interfaces, which cannot be
+				// flattened.
+				return nil, newErrInvalidInput(fmt.Sprintf(
+					"cannot use dig.As with flatten: group:%q flattens %v", g.Name, t), nil)
+			}
+			rg.Type = t.Elem()
 		}
 		return rg, nil
 	default:
